@@ -113,11 +113,6 @@ def linter_ignore_covered(ctx):
 # glob matching (pathlib.PurePath.match) is modelled once, in contracts/c02_magic_numbers.py (uninterpreted TOTAL predicate;
 # the ValueError pathlib raises for an EMPTY pattern is excluded by `requires`/`native_domain`); same spec for every copy
 from contracts.c02_magic_numbers import pattern_matches, file_ignored, no_empty_pattern  # noqa: E402
-# c02_magic_numbers.py registers a pathlib.Path handler that accepts a Path argument only; the shared path model
-# (contracts/c09_paths.py) handles Path AND str arguments (identity on a Path, path_of_str on a str) and is a strict
-# superset -- it must stay the one in effect, the suppression filter builds Path(violation.file_path) from a string
-from contracts.c09_paths import _x_Path as _shared_path_ctor  # noqa: E402
-EXTERNALS["pathlib.Path"] = _shared_path_ctor
 
 CtxT = Rec("LintContext", file_path=Opt(PathT), file_content=Opt(Str), language=Str)
 IgnoreCfgT = Rec("ConfigWithIgnore", ignore=SeqOf(Str))
